@@ -104,6 +104,8 @@ pub struct TypeGraph {
     pub nodes: Vec<Node>,
     pub edges: Vec<Edge>,
     pub roots: Vec<Root>,
+    /// every type written with its path (`std::vec::Vec<crate::Alpha>`)
+    pub qualify: bool,
 }
 
 pub fn file_path(i: usize) -> String {
@@ -168,7 +170,7 @@ impl TypeGraph {
                 for (k, e) in self.edges.iter().filter(|e| e.from == i).enumerate() {
                     // serde serialises private fields too: an edge through one is an edge
                     let vis = ["pub ", "", "pub ", "pub(crate) "][(i + k + e.to) % 4];
-                    s.push_str(&format!("    {}f{}: {},\n", vis, k, self.field_ty(e).rust(true)));
+                    s.push_str(&format!("    {}f{}: {},\n", vis, k, self.field_ty(e).rust_with(true, self.qualify)));
                 }
                 s.push_str("}\n\n");
             }
@@ -177,13 +179,13 @@ impl TypeGraph {
             let s = files.get_mut(&r.file).unwrap();
             let t = self.root_ty(r);
             match r.site.as_str() {
-                "param" => s.push_str(&format!("#[tauri::command]\npub fn take_{}(value: {}) {{}}\n\n", k, t.rust(false))),
-                "return" => s.push_str(&format!("#[tauri::command]\npub fn give_{}() -> {} {{\n    todo!()\n}}\n\n", k, t.rust(true))),
-                "result_ok" => s.push_str(&format!("#[tauri::command]\npub async fn try_{}() -> Result<{}, String> {{\n    todo!()\n}}\n\n", k, t.rust(true))),
-                "result_err" => s.push_str(&format!("#[tauri::command]\npub async fn fail_{}() -> Result<i32, {}> {{\n    todo!()\n}}\n\n", k, t.rust(true))),
-                "channel" => s.push_str(&format!("#[tauri::command]\npub fn stream_{}(on_item: Channel<{}>) {{}}\n\n", k, t.rust(true))),
-                "event_to" => s.push_str(&format!("pub fn tell_{}(app: &AppHandle, payload: {}) {{\n    app.emit_to(\"main\", \"evt-{}\", payload).unwrap();\n}}\n\n", k, t.rust(false), k)),
-                "event" => s.push_str(&format!("pub fn notify_{}(app: &AppHandle, payload: {}) {{\n    app.emit(\"evt-{}\", payload).unwrap();\n}}\n\n", k, t.rust(false), k)),
+                "param" => s.push_str(&format!("#[tauri::command]\npub fn take_{}(value: {}) {{}}\n\n", k, t.rust_with(false, self.qualify))),
+                "return" => s.push_str(&format!("#[tauri::command]\npub fn give_{}() -> {} {{\n    todo!()\n}}\n\n", k, t.rust_with(true, self.qualify))),
+                "result_ok" => s.push_str(&format!("#[tauri::command]\npub async fn try_{}() -> Result<{}, String> {{\n    todo!()\n}}\n\n", k, t.rust_with(true, self.qualify))),
+                "result_err" => s.push_str(&format!("#[tauri::command]\npub async fn fail_{}() -> Result<i32, {}> {{\n    todo!()\n}}\n\n", k, t.rust_with(true, self.qualify))),
+                "channel" => s.push_str(&format!("#[tauri::command]\npub fn stream_{}(on_item: Channel<{}>) {{}}\n\n", k, t.rust_with(true, self.qualify))),
+                "event_to" => s.push_str(&format!("pub fn tell_{}(app: &AppHandle, payload: {}) {{\n    app.emit_to(\"main\", \"evt-{}\", payload).unwrap();\n}}\n\n", k, t.rust_with(false, self.qualify), k)),
+                "event" => s.push_str(&format!("pub fn notify_{}(app: &AppHandle, payload: {}) {{\n    app.emit(\"evt-{}\", payload).unwrap();\n}}\n\n", k, t.rust_with(false, self.qualify), k)),
                 other => crate::run::infra_exit(&format!("unknown root site {}", other)),
             }
         }
@@ -264,5 +266,6 @@ pub fn random_graph(t: &mut Tape, allow_cycles: bool) -> TypeGraph {
     if t.chance(1, 2) {
         nodes.push(Node::new("UnusedDto".into(), t.bool(), t.pick(n_files), true));
     }
-    TypeGraph { n_files, nodes, edges, roots }
+    let qualify = t.chance(1, 4);
+    TypeGraph { n_files, nodes, edges, roots, qualify }
 }
